@@ -297,6 +297,12 @@ func ChunkedPOST(host, path string, chunks [][]byte) (request []byte) {
 // DoH instance, writes exactly request, which must be a complete HTTP/1.1
 // request, and parses one response.
 func (b *Bench) RawHTTP1(v HTTPVariant, request []byte, wait time.Duration) (res Result) {
+	return b.RawHTTP1Pieces(v, [][]byte{request}, 0, wait)
+}
+
+// RawHTTP1Pieces is RawHTTP1 with the request written piece by piece, each
+// with its own write call and a pause in between.
+func (b *Bench) RawHTTP1Pieces(v HTTPVariant, pieces [][]byte, pause, wait time.Duration) (res Result) {
 	var (
 		conn net.Conn
 		err  error
@@ -317,9 +323,19 @@ func (b *Bench) RawHTTP1(v HTTPVariant, request []byte, wait time.Duration) (res
 	defer func() { _ = conn.Close() }()
 
 	_ = conn.SetDeadline(time.Now().Add(wait))
-	_, err = conn.Write(request)
-	if err != nil {
-		return Result{Outcome: Failed, Err: "write: " + err.Error()}
+	for i, p := range pieces {
+		if len(p) == 0 {
+			continue
+		}
+
+		if i > 0 && pause > 0 {
+			time.Sleep(pause)
+		}
+
+		_, err = conn.Write(p)
+		if err != nil {
+			return Result{Outcome: Failed, Err: "write: " + err.Error()}
+		}
 	}
 
 	resp, err := http.ReadResponse(bufio.NewReader(conn), nil)
